@@ -89,6 +89,12 @@ package state
 //@   at UtxoCache.Remove assert spent_output_leaves_the_cache: recv == t.utxo.UtxoCache && $0 == str(txInput.FromAddr) && $1 == ukeyOf(txInput.FromAddr, txInput.RefTxid, txInput.RefOffset)
 //@   at UtxoVM.AddBalance assert created_output_enters_balance: $0 == txOutput.ToAddr && sel(bigval, $1) == natOf(txOutput.Amount) && sel(bigval, $1) != 0
 //@   at UtxoVM.CheckInputEqualOutput assert checks_this_tx: $0 == tx
+// The cache is filled with the output that was just stored - directly, or by a hook that
+// runs after the batch is written: the hook is a function literal, what it captured must
+// still be THIS output's when it runs (a variable shared by all iterations is not).
+//@   deferred CacheFiller.Add [C01] cache_hook_keeps_this_output
+//@   at $1:UtxoCache.Insert assert [C01] hook_caches_the_stored_output: recv == t.utxo.UtxoCache && $0 == str(txOutput.ToAddr) && $1 == ukeyOf(txOutput.ToAddr, tx.Txid, offset) && $2 != nil && $2.FrozenHeight == txOutput.FrozenHeight && sel(bigval, $2.Amount) == natOf(txOutput.Amount)
+//@   at UtxoCache.Insert assert [C01] cache_gets_the_stored_output: recv == t.utxo.UtxoCache && $0 == str(txOutput.ToAddr) && $1 == ukeyOf(txOutput.ToAddr, tx.Txid, offset) && $2 != nil && $2.FrozenHeight == txOutput.FrozenHeight && sel(bigval, $2.Amount) == natOf(txOutput.Amount)
 // C01: what play writes for token outputs. inUKey / outUKey: table keys of the i-th
 // spent and the o-th created output; a created output counts if it is not the fee
 // placeholder and its amount is not zero.
